@@ -13,6 +13,7 @@ import MdIt.Drv.Block
 import MdIt.Drv.Refs
 import MdIt.Drv.Mini
 import MdIt.Drv.Delims
+import MdIt.Drv.Pipeline
 open MdIt
 
 def handle (line : String) : String :=
@@ -34,6 +35,7 @@ def handle (line : String) : String :=
   | "lblock" :: rest => Drv.lLine rest
   | "mblock" :: rest => Drv.mLine rest
   | "linescan" :: rest => Drv.lineScanLine rest
+  | "fullparse" :: rest => Drv.fullParseLine rest
   | "unescape" :: rest => Drv.unescapeLine rest
   | "inline" :: rest => Drv.inlineLine rest
   | "inlinex" :: rest => Drv.inlineXLine rest
